@@ -125,6 +125,90 @@ def step(cls, k=3, all_followups=False, **sel):
     return None
 
 
+def _relabel_core(spec, mapping):
+    """copy / in place / inverse / usable-like-fresh obligations for an arbitrary spec (same text as in `step`)"""
+    model = gl.model_from_spec(spec)
+    expected = gl.model_from_spec(spec)
+    expected.relabel(mapping)
+    exp_snap = expected.snap()
+    src_snap = model.snap()
+    # --- into a copy -------------------------------------------------------------------------------
+    g = gl.build(spec)
+    h = g.relabel_atoms(dict(mapping), copy=True)
+    if h is g:
+        return "relabel_atoms(copy=True) returned the source object"
+    if type(h) is not type(g):
+        return f"relabel_atoms(copy=True) returned a {type(h).__name__}"
+    d = gl.diff(gl.snap(h), exp_snap)
+    if d:
+        return f"copy: renamed graph differs from renamed model: {d}"
+    d = gl.diff(gl.snap(g), src_snap)
+    if d:
+        return f"copy: source changed: {d}"
+    c = gl.coherent(h)
+    if c:
+        return f"copy: relabelled graph incoherent: {c}"
+    # --- in place ----------------------------------------------------------------------------------
+    g2 = gl.build(spec)
+    r = g2.relabel_atoms(dict(mapping), copy=False)
+    d = gl.diff(gl.snap(g2), exp_snap)
+    if d:
+        return f"in place: graph differs from renamed model: {d}"
+    if r is not None:
+        d = gl.diff(gl.snap(r), exp_snap)
+        if d:
+            return f"in place: returned object differs from the renamed graph: {d}"
+    c = gl.coherent(g2)
+    if c:
+        return f"in place: relabelled graph incoherent: {c}"
+    # --- inverse -----------------------------------------------------------------------------------
+    present = [a for a, _, _ in spec["atoms"]]
+    inv = {mapping.get(a, a): a for a in present if mapping.get(a, a) != a}
+    back = h.relabel_atoms(inv, copy=True)
+    d = gl.diff(gl.snap(back), src_snap)
+    if d:
+        return f"inverse mapping does not restore the graph: {d}"
+    g2.relabel_atoms(inv, copy=False)
+    d = gl.diff(gl.snap(g2), src_snap)
+    if d:
+        return f"in-place inverse mapping does not restore the graph: {d}"
+    # --- usable like a freshly built graph -----------------------------------------------------------
+    fresh = gl.build(_renamed_spec(spec, mapping))
+    for which, maker in (("copy", lambda: gl.build(spec).relabel_atoms(dict(mapping), copy=True)),
+                         ("inplace", lambda: _inplace(spec, mapping))):
+        x = maker()
+        try:
+            if not (x == fresh and fresh == x):
+                return f"{which}: relabelled graph != freshly built renamed graph"
+            if hash(x) != hash(fresh):
+                return f"{which}: hash differs from freshly built renamed graph"
+            if not (x == gl.build(spec)):
+                return f"{which}: relabelled graph != original (C01)"
+        except Exception as e:
+            return f"{which}: comparing/hashing the relabelled graph raised {type(e).__name__}: {e}"
+    return None
+
+
+def template_maps(atoms):
+    """renamings of a template: transpositions of neighbouring identifiers, a cyclic shift, a swap of all pairs, a partial map onto fresh identifiers"""
+    atoms = sorted(atoms)
+    out = [{a: b, b: a} for a, b in zip(atoms, atoms[1:])]
+    out.append({a: atoms[(i + 1) % len(atoms)] for i, a in enumerate(atoms)})
+    out.append({a: (atoms[i + 1] if i % 2 == 0 else atoms[i - 1]) for i, a in enumerate(atoms[: len(atoms) // 2 * 2])})
+    out.append({atoms[0]: max(atoms) + 5, atoms[-1]: max(atoms) + 9})
+    out.append({a: atoms[len(atoms) - 1 - i] for i, a in enumerate(atoms)})
+    return out
+
+
+def template(t, cls, mi, **sel):
+    """templates with several stereo units / stereo changes (two centres, four-ring, SN2 reaction, double bond) under identifier-permuting renamings"""
+    from vp.lib import eqfam, tmpl
+    from vp.props import C01
+    spec = eqfam.template_spec(C01.TNAMES[t], gl.CLS_NAMES[cls], sel)
+    maps = template_maps(tmpl.atoms_of(spec))
+    return _relabel_core(spec, maps[mi % len(maps)])
+
+
 def _inplace(spec, mapping):
     g = gl.build(spec)
     g.relabel_atoms(dict(mapping), copy=False)
@@ -158,6 +242,15 @@ def step4(**kw):
 
 def plan(tier, seed):
     units = []
+    from vp.lib import eqfam
+    from vp.props import C01
+    for (n, c, p, pr) in eqfam.template_units(["twocentre", "ring4", "sn2", "dbond"]):
+        params = {"t": (C01.TNAMES.index(n), C01.TNAMES.index(n) + 1), "cls": (gl.CLS_NAMES.index(c), gl.CLS_NAMES.index(c) + 1), "mi": (0, 10)}
+        params.update(p)
+        pre = list(pr) + {"twocentre": ["lig < 2", "mi < 7"], "ring4": ["mi < 10"], "sn2": ["mi < 9"], "dbond": ["sub in (1, 4)", "order % 12 == 0", "mi < 9"]}[n]
+        if tier == "quick":
+            pre += {"twocentre": ["par == par2 or chg > 0"], "dbond": ["kind == 0 or chg > 1"]}.get(n, [])
+        units.append(Sel(name=f"template_{n}_{c}", func="vp.props.C11:template", params=params, pre=pre, shard_by=[], timeout=1500, nontrivial="mi > 0"))
     for u in C09.plan(tier, seed):
         if not u.name.startswith("mut_"):
             continue
